@@ -245,6 +245,40 @@ Json EngineGen::generate(uint64_t seed, const runner::GenOptions& opt, const Eng
   addBuild();
   for (int i = 1; i < nOps; i++) {
     unsigned roll = (unsigned)rng.below(1000);
+    if (f.cancel && useDisc && rng.chance(150)) {
+      // A rule X reads leaf L directly and reports it as discovered.  L changes; X is made to run for another reason (its
+      // stored value is declared invalid once), so it is not preceded by a scan of L; the build is cancelled at a seeded
+      // point - possibly right after X completed and before L was brought up to date on its behalf; L goes back to its
+      // earlier value.  Whatever completed with the intermediate value must not survive as up to date.
+      std::vector<std::pair<int, int>> pairs;
+      for (auto& e : prog.rules)
+        for (auto& d : e.second.disc)
+          if (!e.second.empty) pairs.push_back({e.first, d.k});
+      if (!pairs.empty()) {
+        auto pr = pairs[rng.below(pairs.size())];
+        int x = pr.first, id = pr.second;
+        std::string before = past[id].back();
+        std::string v = spellValue(rng, vcounter++, valStyle);
+        past[id].push_back(v);
+        hist.push(Json::obj().set("op", "set").set("k", id).set("v", util::hex(v)));
+        if (f.invalidate && rng.chance(800)) hist.push(Json::obj().set("op", "invalidate").set("k", x));
+        Json op = Json::obj();
+        op.set("op", "build").set("k", rng.chance(600) ? x : mainTarget);
+        Json c = Json::obj();
+        c.set("kind", (int64_t)rng.below(3)).set("n", (int64_t)rng.below(30)).set("yields", (int64_t)rng.below(30)).setb("twice", false);
+        op.set("cancel", c);
+        hist.push(op);
+        builds++;
+        if (f.restart && rng.chance(300)) hist.push(Json::obj().set("op", "restart"));
+        past[id].push_back(before);
+        hist.push(Json::obj().set("op", "set").set("k", id).set("v", util::hex(before)));
+        Json op2 = Json::obj();
+        op2.set("op", "build").set("k", rng.chance(600) ? x : mainTarget);
+        hist.push(op2);
+        builds++;
+        continue;
+      }
+    }
     if (roll < 380) {
       addBuild();
     } else if (roll < 700) {
@@ -473,6 +507,7 @@ struct Run : public BuildEngineDelegate, public basic::ExecutionQueueDelegate {
   int restartsDone = 0;
   int versionChanges = 0;
   uint32_t diskClientVersion = 0;
+  std::set<std::string> completedThisBuild;   // keys whose IsComplete was delivered in the current build
   bool diskSchemaForeign = false;       // info.version was rewritten by a "different llbuild"
   struct IntrudeSpec {
     bool on = false;
@@ -839,6 +874,7 @@ void SimRule::doUpdateStatus(StatusKind status) {
     m.validatedIn = r->buildNo;
     m.hasExec = true;
     m.interrupted = false;
+    r->completedThisBuild.insert(k);
     if (ts) {
       m.deps = ts->reqOrder;
       m.deps.insert(m.deps.end(), ts->discovered.begin(), ts->discovered.end());
@@ -1600,6 +1636,7 @@ void Run::opBuild(const Json& op) {
   createCount.clear();
   reasons.clear();
   invalidReported.clear();
+  completedThisBuild.clear();
   requestedThisBuild.clear();
   cycleReported = errorReported = false;
   cancelIssued = cancelReturned = cancelOnEngineThread = false;
@@ -1843,6 +1880,7 @@ void Run::doRestart() {
   for (auto& e : dbCommitted) {
     KeyShadow s;
     s.hasExec = s.hasValue = true;
+    if (e.second.builtEpoch == 0) s.hasExec = false;   // a result the engine withdrew (stored with built-at 0): never built
     s.value = e.second.value;
     s.sig = e.second.sig;
     s.deps = e.second.deps;
@@ -1858,6 +1896,32 @@ void Run::doRestart() {
 void Run::afterBuild(const ValueType& result) {
   std::string got = toStr(result);
   bool failedRun = cycleReported || errorReported;
+  if (got.empty()) {
+    // The build stopped early (cancellation, cycle, error).  A rule that completed in it waited only for the inputs it
+    // requested; what it *discovered* is brought up to date on its behalf afterwards.  Where that did not happen any more the
+    // engine withdraws the result (built-at 0, also in the database) since fix "unverified discovered dependencies" in
+    // /repo: the rule is "never built" for the next build.
+    std::vector<std::string> unverified;
+    for (auto& k : completedThisBuild) {
+      KeyShadow& m = mem[k];
+      for (auto& d : m.deps) {
+        auto it = mem.find(d.key);
+        if (it == mem.end() || it->second.validatedIn != buildNo) {
+          unverified.push_back(k);
+          break;
+        }
+      }
+    }
+    for (auto& k : unverified) {
+      mem[k].hasExec = false;
+      auto it = dbv.find(k);
+      if (it != dbv.end()) {
+        it->second.builtEpoch = 0;
+        it->second.builtBuild = 0;
+      }
+      ctr()["results_withdrawn_unverified_discovered"]++;
+    }
+  }
   ev(EV_BUILD_END, targetKey, got, failedRun || cancelIssued);
   EvalResult e = evalRef(targetId);
 
